@@ -446,6 +446,12 @@ func checkReaderDiscipline(c *Ctx, p *packages.Package) {
 					if condOnCursorAndField(e) {
 						eofOK = true
 					}
+					// switch i.forward { ... case i.end: }
+					if x.Tag != nil {
+						if condOnCursorAndField(&ast.BinaryExpr{X: x.Tag, Op: token.EQL, Y: e}) {
+							eofOK = true
+						}
+					}
 				}
 			}
 			return false
@@ -617,14 +623,23 @@ func checkReaderDiscipline(c *Ctx, p *packages.Package) {
 			}
 			for _, gf := range guardFields {
 				reassigned := false
-				ast.Inspect(fdl.Body, func(m ast.Node) bool {
-					if as, ok := m.(*ast.AssignStmt); ok && len(as.Lhs) == 1 {
-						if s2, ok := as.Lhs[0].(*ast.SelectorExpr); ok && s2.Sel.Name == gf {
-							reassigned = true
-						}
+				bodies := []*ast.BlockStmt{fdl.Body}
+				// ... or in the loader that is called there (a loader that itself moves on to the other half)
+				AllFuncDecls(p, func(ld *ast.FuncDecl) {
+					if ld.Recv != nil && ld.Body != nil && recvName(ld.Recv.List[0].Type) == recv && ld.Name.Name == sel.Sel.Name {
+						bodies = append(bodies, ld.Body)
 					}
-					return true
 				})
+				for _, body := range bodies {
+					ast.Inspect(body, func(m ast.Node) bool {
+						if as, ok := m.(*ast.AssignStmt); ok && len(as.Lhs) == 1 {
+							if s2, ok := as.Lhs[0].(*ast.SelectorExpr); ok && s2.Sel.Name == gf {
+								reassigned = true
+							}
+						}
+						return true
+					})
+				}
 				if reassigned {
 					guardedLoads++
 					break
